@@ -17,7 +17,7 @@ import (
 	"github.com/trustbloc/sidetree-core-go/pkg/docutil"
 )
 
-const jsonPatchAddTemplate = `{ "op": "add", "path": "/%s", "value": %s }`
+const jsonPatchAddTemplate = `{ "op": "add", "path": %s, "value": %s }`
 
 // Action defines action of document patch.
 type Action string
@@ -119,7 +119,13 @@ func PatchesFromDocument(doc string) ([]Patch, error) {
 		case document.AlsoKnownAs:
 			docPatch, err = NewAddAlsoKnownAs(string(jsonBytes))
 		default:
-			jsonPatches = append(jsonPatches, fmt.Sprintf(jsonPatchAddTemplate, key, string(jsonBytes)))
+			// the member name becomes a JSON pointer token ('~' and '/' are escaped, RFC 6901) inside a JSON string
+			pointer, e := json.Marshal("/" + strings.NewReplacer("~", "~0", "/", "~1").Replace(key))
+			if e != nil {
+				return nil, e
+			}
+
+			jsonPatches = append(jsonPatches, fmt.Sprintf(jsonPatchAddTemplate, string(pointer), string(jsonBytes)))
 		}
 
 		if err != nil {
